@@ -34,6 +34,10 @@ CHECKS = {
    text="Every activity pattern over a horizon of 8 (quick) / 10 (thorough) steps of T/4+1ms (and T/2+1ms, and the exact grid T/4) - per step: idle / left transfers / right transfers / both / toggle back-pressure - executed on the production DuplexPipe under tokio's paused clock; oracle in virtual time: an idle-timer close happens only >= T after the last transfer, and a tunnel idle for 2T (+2 steps of timer granularity) is closed; endpoints released on close.",
    note="Virtual time replaces real time (exact-grid equality is an artefact and only the safety half is checked there). Establishment / TLS-handshake timeouts are a separate sub-check reported in the evidence.",
    tech="exhaustive enumeration of bounded activity histories on the real pipe under a controlled virtual clock"),
+ "C10": dict(cat="exploration",
+   text="CONNECT x 14 authority shapes (reserved names, look-alikes, literals, names with/without port) x 12 outcomes of the outbound attempt (connected, ECONNREFUSED, ENETUNREACH, EHOSTUNREACH, ETIMEDOUT, never completes + virtual clock past the establishment timeout, policy loopback / non-routable, resolver failure, only-IPv6 with IPv6 unavailable, EMFILE, bad credentials) x {HTTP/1.1, HTTP/2} x {client waits, client closes}, plus GET/POST/OPTIONS/HEAD on reserved authorities, through the real accept path with the real DirectForwarder; everything the endpoint writes on the stream is parsed: exactly one final response with the documented status / X-Warning / X-Adguard-Vpn-Error, reserved authorities never reach the resolver/connector, session released when the client goes away.",
+   note="connect(2)/getaddrinfo answers come from the interposer; HTTP/3 not driven; request lines the protocol library itself refuses are unconstrained.",
+   tech="exhaustive decision-table x fault-outcome enumeration on the real accept path with syscall interposition and a virtual clock"),
 }
 NOT_YET = "check not built yet in this round (planned, see DESIGN.md section 3)"
 
